@@ -417,15 +417,36 @@ impl<
                     #[cfg(feature = "verif")]
                     crate::verif::thread_point("kos_between_fetch_and_entry");
 
-                    self.repr.cache.entry(key.clone(), |e| match e {
-                        tiny_lfu::Entry::Vacant(vaccant_entry) => {
-                            vaccant_entry.insert(entry.clone());
+                    // An operation staged after the snapshot above was taken
+                    // finds no cache entry yet and therefore only lands in
+                    // the staging log. Publish the entry while holding its
+                    // write lock (writers update a cached entry under the
+                    // read lock) and fold in whatever has been staged in the
+                    // meantime before anybody can use it.
+                    {
+                        let guard = entry.write();
+
+                        self.repr.cache.entry(key.clone(), |e| match e {
+                            tiny_lfu::Entry::Vacant(vaccant_entry) => {
+                                vaccant_entry.insert(entry.clone());
+                            }
+                            tiny_lfu::Entry::Occupied(_) => {
+                                // Do nothing as another thread inserted an
+                                // explicit value
+                            }
+                        });
+
+                        if let Entry::InMemory(set) = &*guard {
+                            let late = self.get_staging_snapshot(key);
+
+                            for element in late.added {
+                                set.insert_element(element);
+                            }
+                            for element in &late.removed {
+                                set.remove_element(element);
+                            }
                         }
-                        tiny_lfu::Entry::Occupied(_) => {
-                            // Do nothing as another thread inserted an explicit
-                            // value
-                        }
-                    });
+                    }
 
                     entry
                 })
@@ -658,10 +679,9 @@ impl<
     fn next(&mut self) -> Option<Self::Item> {
         match self {
             Self::Spilled(spilled, snapshot) => {
-                // First drain from half_constructed
-                if let Some(item) = spilled.half_constructed.next() {
-                    let item = item;
-
+                // First drain from half_constructed, skipping (not stopping
+                // at) the elements that have a staged removal
+                for item in spilled.half_constructed.by_ref() {
                     if snapshot.removed.contains(&item).not() {
                         return Some(item);
                     }
